@@ -85,10 +85,10 @@ theorem markInv_step (S : Schema) (hts : TextLoop S) (s : Step) (d d' : Node)
     (hI : MarkInv S d) (h : S.apply s d = .ok d') : MarkInv S d' := by
   obtain ⟨hv, hn, hf⟩ := hI
   rcases hs with ⟨a, b, x, rfl⟩ | ⟨a, b, m, rfl⟩
-  · have k := removeMark_keeps S d d' a b x h
+  · have k := removeMark_keepsAll S d d' a b x h
     exact ⟨k.valid hts.stable hv, k.norm hn,
       flatInline_of_pt S d d' _ (rmG_shape S x a b) (removeMark_pt S d d' a b x h) hf⟩
-  · have k := addMark_keeps S d d' a b m h
+  · have k := addMark_keepsAll S d d' a b m h
     exact ⟨k.valid hts.stable hv, k.norm hn,
       flatInline_of_pt S d d' _ (addG_shape S m a b) (addMark_pt S d d' a b m h) hf⟩
 
